@@ -127,6 +127,41 @@ pub fn export_assembly(b: &BackendProgram) -> J {
 }
 
 /// Light syntactic scan of emitted text: every referenced local label is defined exactly once.
+/// The branch-free code after `entry:` of the emitted AMD64 text, abstracted to what moves rsp by an odd number of
+/// words ("flip": push, pop, `sub|add rsp, K` with K/8 odd) and to calls.  spec/ZySps.tla decides alignment on it.
+fn entry_stack_ops(text: &str) -> Vec<&'static str> {
+    let mut ops = Vec::new();
+    let mut on = false;
+    for line in text.lines() {
+        let t = line.trim();
+        if !on {
+            on = t == "entry:";
+            continue;
+        }
+        if t.is_empty() || t.starts_with(";;;") {
+            continue;
+        }
+        if t.ends_with(':') {
+            break;
+        }
+        let mut it = t.split_whitespace();
+        match it.next().unwrap_or("") {
+            | "push" | "pop" => ops.push("flip"),
+            | "sub" | "add" if it.next() == Some("rsp,") => {
+                let k = it.next().unwrap_or("0");
+                let k = if let Some(h) = k.strip_prefix("0x") { i64::from_str_radix(h, 16).unwrap_or(0) } else { k.parse::<i64>().unwrap_or(0) };
+                if (k / 8) % 2 != 0 {
+                    ops.push("flip");
+                }
+            }
+            | "call" => ops.push("call"),
+            | "jmp" | "ret" => break,
+            | _ => {}
+        }
+    }
+    ops
+}
+
 fn scan_amd64(text: &str) -> Option<String> {
     let mut defined: std::collections::BTreeMap<String, usize> = Default::default();
     let mut referenced: std::collections::BTreeSet<String> = Default::default();
@@ -212,10 +247,14 @@ pub fn lower_all(session: &zydeco_session::CompilerSession, analysis: &zydeco_se
     };
     stage("render_sps_low", &|| Ok(b.render_sps_low()), &mut findings);
     stage("render_assembly", &|| Ok(b.render_assembly()), &mut findings);
+    let mut entry_ops: Vec<&'static str> = Vec::new();
     for os in [TargetOs::Linux, TargetOs::Macos] {
         if let Some(text) = stage(&format!("emit_amd64 {os:?}"), &|| Ok(b.emit_amd64(os)), &mut findings) {
             if let Some(d) = scan_amd64(&text) {
                 findings.push(mk("C18", "amd64-text-ill-formed", format!("{os:?}: {d}")));
+            }
+            if os == TargetOs::Linux {
+                entry_ops = entry_stack_ops(&text);
             }
         }
     }
@@ -228,7 +267,7 @@ pub fn lower_all(session: &zydeco_session::CompilerSession, analysis: &zydeco_se
             | Err(p) => findings.push(mk("C18", "emit-panic", format!("emit_llvm: {} @ {}", p.message, p.file))),
         }
     }
-    let record = json!({"low": export_sps_low(&b), "asm": export_assembly(&b)});
+    let record = json!({"low": export_sps_low(&b), "asm": export_assembly(&b), "amd64_entry": entry_ops});
     Lowered { findings, record: Some(record), llvm_unsupported }
 }
 
@@ -400,7 +439,7 @@ pub fn corpus_lower(summary_path: &str, out_path: &str) {
         *classes.entry(c).or_default() += 1;
         if let Some(rec) = rec {
             // the machine part is not run for corpus programs (they use roles outside ZySps' table): WF only
-            let slim = json!({"id": rec["id"], "file": rec["file"], "low": rec["low"], "asm": rec["asm"], "interp": {"end":"skip","code":0,"out":""}, "fuel": 0, "source_body": ""});
+            let slim = json!({"id": rec["id"], "file": rec["file"], "low": rec["low"], "asm": rec["asm"], "amd64_entry": rec["amd64_entry"], "interp": {"end":"skip","code":0,"out":""}, "fuel": 0, "source_body": ""});
             out.push_str(&serde_json::to_string(&slim).unwrap());
             out.push('\n');
         }
